@@ -23,7 +23,7 @@ CLAIMS = {
             "DESIGN 4/C02, 11", TECH + " over a structured FS ghost state; filtered id collections for prefix resolution", FS_NOTE),
     "C03": ("other", "One Hoare triple per mutating operation (init, remove, clear, reset, re-key _save, move, clone, statepoint setter, update_statepoint, open_job, Job.__init__): each preserves the "
             "job class invariant and the frame 'every other job untouched'; the lift to arbitrary histories is the induction over these triples (stated, not mechanised) and is sampled by the "
-            "bounded model-based histories: level 'other'. Added in the seed rounds: __copy__, the state point setter with a shallow-copy sibling, _StatePointDict.load (fills the in-memory data), Job.move with an open document handle. Round 11: Project.clone with a stale cached state point on the cloned handle (also under C01).",
+            "bounded model-based histories: level 'other'. Added in the seed rounds: __copy__, the state point setter with a shallow-copy sibling, _StatePointDict.load (fills the in-memory data), Job.move with an open document handle. Round 11: Project.clone with a stale cached state point on the cloned handle (also under C01). Round 12: open_job(statepoint) keeps an unaliased deep copy (checked under C04 too); update_cache writes the strict JSON text of the cache (under C01 too).",
             "DESIGN 4/C03, 11", TECH + ": class invariant + per-operation triples", FS_NOTE),
     "C04": ("other", "Re-key (_StatePointDict._save) proved for an arbitrary number of live handles: directory moved with all entries, new state point written, no backup left, every handle follows; "
             "DestinationExistsError implies byte-identical state; occupied destination never clobbered. Job.move, Project.clone, the statepoint setter and update_statepoint (conflict => KeyError "
@@ -60,7 +60,7 @@ CLAIMS = {
             TECH + " with effect traces; bounded crash injection", FS_NOTE),
     "C11": ("other", "Crash-point invariants asserted after every file-system effect on every path, and exceptional postconditions for an injected OSError (symbolic errno != ENOENT) at every external, "
             "for Job.init, _StatePointDict.save/load, the re-key protocol, move, clone, remove, clear, reset, check and the repair body. Multi-step externals (rmtree, copytree) by assumed "
-            "partial-effect contracts; a bounded fault / crash injection layer runs the same operations natively. Added in the seed rounds: update_statepoint (one whole assignment) and os.path.isfile under stat faults in the re-key. Round 11: the Job.statepoint getter (a failed lazy load leaves the handle lazy).",
+            "partial-effect contracts; a bounded fault / crash injection layer runs the same operations natively. Added in the seed rounds: update_statepoint (one whole assignment) and os.path.isfile under stat faults in the re-key. Round 11: the Job.statepoint getter (a failed lazy load leaves the handle lazy). Round 12: repair creates a directory under the correct id only by moving the job there.",
             "DESIGN 4/C11, 11", TECH + " with effect traces and fault injection at every external", FS_NOTE),
     "C12": ("other", "Rely/guarantee verification at file-system-call granularity of the actor functions Project.__init__, _mkdir_p and Job.init (executed down through Job.statepoint, "
             "_StatePointDict.load/save and the dependency's read/write contracts): under interference by any number of other actors of the script set before every file-system call, no "
@@ -76,7 +76,7 @@ CLAIMS = {
     "C14": ("other", "'Overwritten iff the strategy returns true' and 'FileSyncConflict before touching any differing file' proved per directory level; FileSync.update / always / never proved against "
             "an os.stat model (update: iff the source is strictly newer); DocSync.ByKey per nesting level: a key is overwritten iff absent or differing-scalar-and-selected, differing mappings are "
             "merged recursively under the full dotted prefix, unselected conflicts recorded under their full name; create_backup / create_doc_backup: on any exception of the body the document "
-            "is its pre-sync content and the backup is removed. Added in the seed rounds: DocSync.update against Python equality being coarser than JSON identity, the stale-backup cases of both backup functions, no buffering block around the forwarded sync call. Round 11: the backup context managers aborted by something that is not an Exception.", "DESIGN 4/C14, 11",
+            "is its pre-sync content and the backup is removed. Added in the seed rounds: DocSync.update against Python equality being coarser than JSON identity, the stale-backup cases of both backup functions, no buffering block around the forwarded sync call. Round 11: the backup context managers aborted by something that is not an Exception. Round 12: the symlink branch of _FileModifyProxy.copy removes a file at the destination before the link is made.", "DESIGN 4/C14, 11",
             TECH + ", generator context managers executed at their yield point", SYNC_NOTE),
     "C15": ("other", "Dry-run frame proved for every method of _FileModifyProxy and _DocProxy (no file-system call, no document mutation, completes like the live run), for ByKey's nested writes (gated "
             "destination required at the recursive call) and up through sync_jobs (never initialises the destination in a dry run); deep / recursive / exclude / strategy / proxy forwarding proved as call-site "
@@ -103,7 +103,7 @@ CLAIMS = {
     "C19": ("other", "_locate_config_dir proved with loop invariants and a decreasing variant over an axiomatised directory chain; Project.get_project (nearest enclosing project, only the directory "
             "itself without search, LookupError conditions), Project.get_job (the last id-like path component, project searched from its parent), Project.init_project (an existing project is "
             "returned without any write; nothing is written before the legacy gate) and the module-level front ends proved on top of it. Whole directory trees incl. symlinks and relative paths "
-            "are bounded. Added in the seed rounds: path queries in the module-level forwarders; non-existent paths and stray signac.rc files in the bounded trees. Round 11: _load_config (the user-level file first, the project's own config last).", "DESIGN 4/C19, 11", TECH + ", inductive loop invariants over a directory-chain theory", BASE_TRUST),
+            "are bounded. Added in the seed rounds: path queries in the module-level forwarders; non-existent paths and stray signac.rc files in the bounded trees. Round 11: _load_config (the user-level file first, the project's own config last). Round 12: Project.__init__ (the workspace is <path>/workspace whatever the configuration holds).", "DESIGN 4/C19, 11", TECH + ", inductive loop invariants over a directory-chain theory", BASE_TRUST),
     "C20": ("other", "Integer contract of the version gate (_check_schema_compatibility passes iff version == 2, for every integer), _raise_if_older_schema refuses every loadable config of "
             "another version, _locate_config_dir's legacy scan, init_project's legacy gate, and the migration chain (_collect_migrations, apply_migrations, _migrate_v1_to_v2: exactly the "
             "documented effects in order) discharged; configobj / filelock and end-to-end preservation of every job are bounded (legacy configurations migrated with the real code). Added in the seed rounds: configurations without a version, sessions that use '.' for two projects in turn. Round 11: _load_config (the project's declared schema_version wins over ~/.signacrc).",
